@@ -1,12 +1,13 @@
 SPECIFICATION Spec
 CONSTANTS
-  Ls = {6}
-  Family = "pure"
+  Ls = {4}
+  Family = "reptab"
   OpKinds = {}
   Chunk = 40
   Stride = 1
   Offset = 0
   MaxGuest = 2
   PureLen = 1
-  Devs = {"RgPt", "BwRev", "BwOrigin", "WrapSlice"}
+  Devs = {"RgPt", "BwRev", "BwOrigin", "WrapSlice", "RepairCp", "RepairJn"}
+INVARIANT DesignOK
 CHECK_DEADLOCK FALSE
